@@ -62,6 +62,135 @@ def _stmts(fi):
     return list(fi.node.body)
 
 
+def _pop_paths(ctx):
+    """Path-wise reading of c_pop (shape-independent): for heap sizes 0, 1 and >1 what is stored / erased / called, in order.
+    Returns (problems: list of (key, message, path), n_paths) -- empty problems means all clauses hold; None if not analysable."""
+    from sa import pathfx
+
+    pop = ctx.func(PQ + ".c_pop")
+    cfg = ctx.cfg(pop)
+    try:
+        sums = pathfx.summaries(cfg, include_raise=True, opaque=("first_entry", "last_entry"))
+    except OverflowError:
+        return None, 0, pop, cfg
+    SIZE = "self.heap.size()"
+
+    SAFE = (ast.Expression, ast.Compare, ast.Constant, ast.cmpop, ast.BoolOp, ast.boolop, ast.UnaryOp, ast.unaryop, ast.BinOp, ast.operator, ast.Load)
+
+    def num_eval(expr, size_now, nenv):
+        """Value of an expression over the current heap size and locals whose value is already known (None if it is about something else)."""
+        from sa.pathfx import _clone
+
+        class T(ast.NodeTransformer):
+            def visit_Call(self, node):
+                if u(node) == SIZE:
+                    return ast.Constant(value=size_now)
+                return node
+
+            def visit_Name(self, node):
+                if node.id in nenv:
+                    return ast.Constant(value=nenv[node.id])
+                return node
+
+        tree = ast.Expression(body=T().visit(_clone(expr)))
+        ast.fix_missing_locations(tree)
+        if not all(isinstance(x, SAFE) for x in ast.walk(tree)):
+            return None
+        try:
+            return eval(compile(tree, "<size>", "eval"), {"__builtins__": {}})
+        except Exception:
+            return None
+
+    def sizes(ps):
+        """Initial heap sizes (0, 1, 2, 5) under which this path is taken; the size drops by one at heap.pop_back() and a local
+        keeps the value it had when it was assigned."""
+        ok_n = []
+        for n in (0, 1, 2, 5):
+            shrunk, nenv, good = 0, {}, True
+            for a_, b_ in zip(ps.path, ps.path[1:]):
+                k_ = cfg.kind(a_)
+                node = cfg.ast(a_)
+                if k_ == "stmt" and node is not None:
+                    if isinstance(node, (ast.Assign, ast.AnnAssign)) and getattr(node, "value", None) is not None:
+                        tg = node.targets[0] if isinstance(node, ast.Assign) else node.target
+                        if isinstance(tg, ast.Name):
+                            v_ = num_eval(node.value, n - shrunk, nenv)
+                            if v_ is not None:
+                                nenv[tg.id] = v_
+                            else:
+                                nenv.pop(tg.id, None)
+                    if any(isinstance(c_, ast.Call) and u(c_.func) == "self.heap.pop_back" for c_ in ast.walk(node)):
+                        shrunk += 1
+                elif k_ == "test" and node is not None:
+                    labs = cfg.g[a_][b_]["label"].split("|")
+                    if "true" in labs and "false" in labs:
+                        continue
+                    v_ = num_eval(node, n - shrunk, nenv)
+                    if v_ is None:
+                        continue
+                    if bool(v_) != ("true" in labs):
+                        good = False
+                        break
+            if good:
+                ok_n.append(n)
+        return ok_n
+
+    problems = []
+    seen = set()
+    for ps in sums:
+        ns = sizes(ps)
+        eff = ps.effects
+        kinds = [(e_[0], u(e_[1]) if e_[1] is not None else "", u(e_[2]) if len(e_) > 2 and e_[2] is not None else "") for e_ in eff]
+        raises = any(k == "raise" for k, _, _ in kinds)
+        binds = {a: c for k, a, c in kinds if k == "bind"}
+        order = [(k, a, c) for k, a, c in kinds if k in ("store", "call", "return")]
+        names = [("%s %s%s" % (k, a, (" = " + c) if k == "store" else "")) for k, a, c in order]
+        def idx(prefix):
+            for i_, nm in enumerate(names):
+                if nm.startswith(prefix):
+                    return i_
+            return None
+        for n in ns:
+            seen.add(min(n, 2))
+            if n == 0:
+                if not raises:
+                    problems.append(("empty-queue-raises", "popping an empty queue does not raise", ps))
+                continue
+            if raises:
+                continue
+            fe_ok = binds.get("first_entry") == "self.heap[0]"
+            ret_ok = any(k == "return" and a == "first_entry" for k, a, c in order)
+            er = idx("call self.positions.erase(first_entry.second)")
+            pb = idx("call self.heap.pop_back()")
+            mv = idx("store self.heap[0] = last_entry")
+            rp = idx("store self.positions[last_entry.second] = 0")
+            sd = idx("call self._sift_down(0)")
+            if not fe_ok or not ret_ok:
+                problems.append(("first-and-last-entry", "the popped entry is not heap[0] read before any change / not what is returned", ps))
+            if er is None:
+                problems.append(("popped-item-erased-on-every-path", "an item can be popped without its position being erased", ps))
+            if pb is None:
+                problems.append(("heap-shrinks-on-every-path", "an entry can be returned without the heap shrinking", ps))
+            if n == 1:
+                if mv is not None or rp is not None:
+                    problems.append(("moved-last-entry-repointed-to-0", "with a single entry nothing must be moved to slot 0", ps))
+            else:
+                le_ok = binds.get("last_entry", "").replace(" ", "") in ("self.heap[self.heap.size()-1]",) and (pb is None or True)
+                # last_entry must be read before the heap shrinks
+                bind_pos = [i_ for i_, (k, a, c) in enumerate(kinds) if k == "bind" and a == "last_entry"]
+                pb_pos = [i_ for i_, (k, a, c) in enumerate(kinds) if k == "call" and a.startswith("self.heap.pop_back")]
+                if not le_ok or not bind_pos or (pb_pos and bind_pos[0] > pb_pos[0]):
+                    problems.append(("first-and-last-entry", "the last entry is not heap[size-1] read before the heap shrinks", ps))
+                if mv is None or rp is None:
+                    problems.append(("moved-last-entry-repointed-to-0", "moving the last entry to slot 0 is not paired with positions[that item] = 0 when more than one entry exists", ps))
+                if sd is None or any(x is not None and x > sd for x in (mv, rp, er, pb)):
+                    problems.append(("pop-ends-in-sift-down-0", "c_pop does not finish the size > 1 case with _sift_down(0) after all bookkeeping", ps))
+                # positions[last] = 0 must not be undone by erasing the same key: erase refers to the first entry (checked above)
+    if seen != {0, 1, 2}:
+        problems.append(("first-and-last-entry", "c_pop does not distinguish the heap sizes 0, 1 and more (%s)" % sorted(seen), sums[0] if sums else None))
+    return problems, len(sums), pop, cfg
+
+
 def r2(ctx):
     push = ctx.func(PQ + ".c_push")
     cfg = ctx.cfg(push)
@@ -81,37 +210,14 @@ def r2(ctx):
     ent = {u(s.target): u(s.value) for s in util.store_sites(push.node) if s.kind == "attr" and u(s.target.value) == "entry"}
     ok = ent == {"entry.first": score_p, "entry.second": item_p} and pb and u(pb[0].args[0]) == "entry"
     ctx.ob(push.qual, "entry-holds-score-and-item", ok, push.loc(), "the pushed entry is (score, item)" if ok else "pushed entry fields are %s" % ent)
-    pop = ctx.func(PQ + ".c_pop")
-    pcfg = ctx.cfg(pop)
-    fe = util.single_def(pop.node, "first_entry")
-    le = util.single_def(pop.node, "last_entry")
-    ok = fe is not None and u(fe) == "self.heap[0]" and le is not None and u(le) == "self.heap[self.heap.size() - 1]"
-    ctx.ob(pop.qual, "first-and-last-entry", ok, pop.loc(), "first_entry = heap[0], last_entry = heap[size-1]" if ok else "first/last entry definitions changed")
-    erases = {pcfg.node_containing(c) for c in ctx.prog.calls_in(pop.node) if u(c.func) == "self.positions.erase" and u(c.args[0]) == "first_entry.second"}
-    rets = [n for n in walk_function(pop.node) if isinstance(n, ast.Return)]
-    ok = len(rets) == 1 and u(rets[0].value) == "first_entry"
-    bad = None
-    for r_ in rets:
-        p = pcfg.find_path(pcfg.entry, pcfg.node_of(r_), avoid_nodes=erases)
-        if p is not None:
-            bad = p
-    ctx.ob(pop.qual, "popped-item-erased-on-every-path", ok and bad is None and bool(erases), pop.loc(), "positions.erase(popped item) is passed on every path to the return of the popped entry" if ok and bad is None and erases else "an item can be popped while its position entry stays in the map", pcfg.describe_path(bad))
-    pops = {pcfg.node_containing(c) for c in ctx.prog.calls_in(pop.node) if u(c.func) == "self.heap.pop_back"}
-    bad = None
-    for r_ in rets:
-        p = pcfg.find_path(pcfg.entry, pcfg.node_of(r_), avoid_nodes=pops)
-        if p is not None:
-            bad = p
-    ctx.ob(pop.qual, "heap-shrinks-on-every-path", bad is None and bool(pops), pop.loc(), "heap.pop_back() is passed on every path that returns an entry" if bad is None and pops else "an entry can be returned without the heap shrinking", pcfg.describe_path(bad))
-    mv = [s for s in util.store_sites(pop.node) if s.kind == "subscript" and u(s.target) == "self.heap[0]"]
-    rp = [s for s in util.store_sites(pop.node) if s.kind == "subscript" and u(s.target) == "self.positions[last_entry.second]"]
-    ok = len(mv) == 1 and u(mv[0].value) == "last_entry" and len(rp) == 1 and u(rp[0].value) == "0" and mv[0].stmt.parent is rp[0].stmt.parent
-    if ok:
-        ga = guard_atoms(pcfg, pcfg.node_of(mv[0].stmt))
-        ok = ("1 == self.heap.size()", False) in ga
-    ctx.ob(pop.qual, "moved-last-entry-repointed-to-0", ok, pop.loc(mv[0].stmt) if mv else pop.loc(), "when more than one entry exists the last entry moves to slot 0 and its position becomes 0" if ok else "moving the last entry to slot 0 is not paired with positions[that item] = 0 under size != 1")
-    emp = [n for n in walk_function(pop.node) if isinstance(n, ast.If) and atoms(n.test, True) == {("0 == self.heap.size()", True)} and any(isinstance(b, ast.Raise) for b in n.body)]
-    ctx.ob(pop.qual, "empty-queue-raises", len(emp) == 1, pop.loc(), "popping an empty queue raises" if emp else "no raise on empty queue")
+    problems, n_paths, pop, pcfg = _pop_paths(ctx)
+    r2_keys = [("first-and-last-entry", "the popped entry is heap[0]; with more than one entry the last entry heap[size-1] is read before the heap shrinks"), ("popped-item-erased-on-every-path", "positions.erase(popped item) happens on every path that returns an entry"), ("heap-shrinks-on-every-path", "heap.pop_back() happens on every path that returns an entry"), ("moved-last-entry-repointed-to-0", "exactly when more than one entry exists the last entry moves to slot 0 and its position becomes 0"), ("empty-queue-raises", "popping an empty queue raises")]
+    if problems is None:
+        ctx.ob(pop.qual, "c_pop-paths", None, pop.loc(), "too many paths in c_pop")
+    else:
+        for key, good in r2_keys:
+            bad_ = [p_ for p_ in problems if p_[0] == key]
+            ctx.ob(pop.qual, key, not bad_, pop.loc(), "%s (all %d paths, heap sizes 0 / 1 / more)" % (good, n_paths) if not bad_ else bad_[0][1], pcfg.describe_path(bad_[0][2].path) if bad_ and bad_[0][2] is not None else None)
     sw = ctx.func(PQ + "._swap")
     i1, i2 = util.params_of(sw.node)[1:3]
     defs = {k: util.single_def(sw.node, k) for k in ("entry1", "entry2", "pos1", "pos2")}
@@ -132,19 +238,12 @@ def r3(ctx):
     last = push.node.body[-1]
     ok = isinstance(last, ast.Expr) and u(last.value) == "self._sift_up(newindex)"
     ctx.ob(push.qual, "push-ends-in-sift-up", ok, push.loc(last), "c_push restores the heap with _sift_up(new index) as its last step" if ok else "c_push does not end in _sift_up(newindex)")
-    pop = ctx.func(PQ + ".c_pop")
-    pcfg = ctx.cfg(pop)
-    sd = [c for c in ctx.prog.calls_in(pop.node) if u(c.func) == "self._sift_down"]
-    ok = len(sd) == 1 and u(sd[0].args[0]) == "0"
-    if ok:
-        mv = [s for s in util.store_sites(pop.node) if s.kind == "subscript" and u(s.target) == "self.heap[0]"]
-        rp = [s for s in util.store_sites(pop.node) if s.kind == "subscript" and u(s.target).startswith("self.positions[last_entry")]
-        n_sd = pcfg.node_containing(sd[0])
-        ok = bool(mv) and bool(rp) and all(pcfg.dominates(pcfg.node_of(s.stmt), n_sd) for s in mv + rp)
-        ers = [c for c in ctx.prog.calls_in(pop.node) if u(c.func) in ("self.positions.erase", "self.heap.pop_back")]
-        same_branch = [c for c in ers if util.stmt_of(c).parent is mv[0].stmt.parent]
-        ok = ok and all(pcfg.find_path(n_sd, pcfg.node_containing(c)) is None for c in same_branch)
-    ctx.ob(pop.qual, "pop-ends-in-sift-down-0", ok, pop.loc(sd[0]) if sd else pop.loc(), "after moving the last entry to the root, c_pop restores the heap with _sift_down(0) once all bookkeeping is done" if ok else "c_pop does not finish the size > 1 branch with _sift_down(0)")
+    problems, n_paths, pop, pcfg = _pop_paths(ctx)
+    if problems is None:
+        ctx.ob(pop.qual, "pop-ends-in-sift-down-0", None, pop.loc(), "too many paths in c_pop")
+    else:
+        bad_ = [p_ for p_ in problems if p_[0] == "pop-ends-in-sift-down-0"]
+        ctx.ob(pop.qual, "pop-ends-in-sift-down-0", not bad_, pop.loc(), "after moving the last entry to the root, c_pop restores the heap with _sift_down(0) once all bookkeeping is done" if not bad_ else bad_[0][1], pcfg.describe_path(bad_[0][2].path) if bad_ and bad_[0][2] is not None else None)
     cs = ctx.func(PQ + ".c_change_score")
     ccfg = ctx.cfg(cs)
     params = util.params_of(cs.node)
@@ -254,32 +353,84 @@ def r3(ctx):
     vl = ctx.func(MOD + "._vector_score_lower")
     vcfg = ctx.cfg(vl)
     a, b = util.params_of(vl.node)[:2]
-    rets = [n for n in walk_function(vl.node) if isinstance(n, ast.Return)]
-    okl = True
-    seen = set()
-    for r_ in rets:
-        ga = guard_atoms(vcfg, vcfg.node_of(r_))
-        val = r_.value.value if isinstance(r_.value, ast.Constant) else None
-        inloop = any(t.startswith("<iter>") for t, p in ga)
-        if inloop:
-            lt = ("%s[0][i] < %s[0][i]" % (a, b), True) in ga
-            gt = ("%s[0][i] < %s[0][i]" % (b, a), True) in ga
-            if lt and val is True:
-                seen.add("lt")
-            elif gt and val is False:
-                seen.add("gt")
+    # path-wise: at the first index where the vectors differ the answer is `first < second` there; equal elements are passed
+    # over; when one vector is a prefix of the other the shorter one is lower
+    from rules.common import tt_eval
+
+    vsums = pathfx.summaries(vcfg)
+    vloops = [n for n in walk_function(vl.node) if isinstance(n, ast.For)]
+    prob = None
+    if len(vloops) != 1 or not vsums:
+        ctx.ob(vl.qual, "lexicographic-lower", None, vl.loc(), "_vector_score_lower is not one loop over the common prefix followed by a length comparison")
+    else:
+        ivar = u(vloops[0].target)
+        body_nodes = set(vcfg.loop_body_nodes(vcfg.node_of(vloops[0]))) - {vcfg.node_of(vloops[0])}
+        LT, GT, EQ = "%s[0][%s] < %s[0][%s]" % (a, ivar, b, ivar), "%s[0][%s] < %s[0][%s]" % (b, ivar, a, ivar), "%s[0][%s] == %s[0][%s]" % tuple(sorted([a, b])[k // 2] if False else x for k, x in enumerate([a, ivar, b, ivar]))
+        EQ = "%s[0][%s] == %s[0][%s]" % (sorted([a, b])[0], ivar, sorted([a, b])[1], ivar)
+        SH, LG = "%s[0].size() < %s[0].size()" % (a, b), "%s[0].size() < %s[0].size()" % (b, a)
+        covered = set()
+        for ps in vsums:
+            rv = ps.returns()
+            if len(rv) != 1 or rv[0][1] is None:
+                prob = "a path does not return a value"
+                break
+            in_loop = rv[0][3] is not None and any(x is rv[0][3] for x in ast.walk(vloops[0]))
+            conds = []
+            for t, pol in ps.atoms:
+                if t.startswith("<"):
+                    continue
+                try:
+                    conds.append((ast.parse(t, mode="eval").body, pol))
+                except SyntaxError:
+                    pass
+
+            def consistent(env):
+                for e_, pol in conds:
+                    try:
+                        if tt_eval(e_, env) != pol:
+                            return False
+                    except ValueError:
+                        continue
+                return True
+
+            if in_loop:
+                for lt, gt in ((True, False), (False, True), (False, False)):
+                    env = {LT: lt, GT: gt, EQ: not lt and not gt}
+                    if not consistent(env):
+                        continue
+                    if not lt and not gt:
+                        prob = prob or "a result is returned at an index where the two elements are equal"
+                        continue
+                    try:
+                        val = tt_eval(rv[0][1], env)
+                    except ValueError as ex_:
+                        prob = prob or "the value returned inside the loop is not a comparison of the two elements (%s)" % ex_
+                        continue
+                    covered.add("lt" if lt else "gt")
+                    if val != lt:
+                        prob = prob or "at the first differing index the result is %s although first %s second there" % (val, "<" if lt else ">")
             else:
-                okl = False
-        else:
-            shorter = ("%s[0].size() < %s[0].size()" % (a, b), True) in ga
-            notshorter = ("%s[0].size() < %s[0].size()" % (a, b), False) in ga
-            if shorter and val is True:
-                seen.add("short")
-            elif notshorter and val is False:
-                seen.add("notshort")
-            else:
-                okl = False
-    ctx.ob(vl.qual, "lexicographic-lower", okl and seen == {"lt", "gt", "short", "notshort"}, vl.loc(), "scores compare lexicographically; on a common prefix the shorter vector is lower" if okl and seen == {"lt", "gt", "short", "notshort"} else "_vector_score_lower is not the lexicographic `<` (cases seen: %s)" % sorted(seen))
+                # the loop part of the path (if the body was entered) must have seen equal elements
+                if any(n_ in body_nodes for n_ in ps.path):
+                    for lt, gt in ((True, False), (False, True)):
+                        env = {LT: lt, GT: gt, EQ: False}
+                        if consistent(env):
+                            prob = prob or "an index where the elements differ (first %s second) can be passed over without returning" % ("<" if lt else ">")
+                for sh, lg in ((True, False), (False, True), (False, False)):
+                    env = {SH: sh, LG: lg, LT: False, GT: False, EQ: True}
+                    if not consistent(env):
+                        continue
+                    try:
+                        val = tt_eval(rv[0][1], env)
+                    except ValueError as ex_:
+                        prob = prob or "the value returned after the loop is not a comparison of the two lengths (%s)" % ex_
+                        continue
+                    covered.add("short" if sh else "notshort")
+                    if val != sh:
+                        prob = prob or "on a common prefix the result is %s although first is %s" % (val, "shorter" if sh else "not shorter")
+        if prob is None and covered != {"lt", "gt", "short", "notshort"}:
+            prob = "cases covered: %s" % sorted(covered)
+        ctx.ob(vl.qual, "lexicographic-lower", prob is None, vl.loc(), "scores compare lexicographically; on a common prefix the shorter vector is lower (all %d paths)" % len(vsums) if prob is None else "_vector_score_lower is not the lexicographic `<`: %s" % prob)
     sl = ctx.func(PQ + "._score_lower")
     ret = [n for n in walk_function(sl.node) if isinstance(n, ast.Return)][0].value
     i1, i2 = util.params_of(sl.node)[1:3]
